@@ -1,8 +1,10 @@
 package props
 
 import (
+	"compress/gzip"
 	"encoding/json"
 	"fmt"
+	"io"
 	"os"
 	"path/filepath"
 	"strings"
@@ -64,6 +66,24 @@ func (b *cliBox) drop(names ...string) {
 		os.Remove(b.path(n))
 		delete(b.written, n)
 	}
+}
+
+// gunzip reads a gzip file of the box.
+func (b *cliBox) gunzip(name string) (string, bool) {
+	f, err := os.Open(b.path(name))
+	if err != nil {
+		return "", false
+	}
+	defer f.Close()
+	zr, err := gzip.NewReader(f)
+	if err != nil {
+		return "", false
+	}
+	x, err := io.ReadAll(zr)
+	if err != nil {
+		return "", false
+	}
+	return string(x), true
 }
 
 func (b *cliBox) get(name string) (string, bool) {
